@@ -15,7 +15,7 @@ import pandas as pd
 
 from mc.core import Acc, Violation, worker_scratch, classify_exception, exc_signature
 from mc.datasets import make_dataset, gen_psms, set_chunks, DEFAULT_CHUNKS, read_result, listing
-from mc.recorders import make_model
+from mc.recorders import make_model, score_log
 from mc.ref.tdc import ref_qvalues
 
 PROPERTY = "C07"
@@ -24,7 +24,8 @@ RULE = (
     "case = (dataset: multiplicity vector + scan offset, label encoding 1/-1 | 1/0 | bool, best feature higher- or "
     "lower-is-better, estimator in {learns, constant, inverted, over-fitted (degraded on unseen rows), fully inverted on "
     "unseen rows}, text | Parquet, override flag, test_fdr); full product. Non-trivial iff the estimator is not the "
-    "well-behaved one or the feature is lower-is-better (the safety net or the direction must do something)"
+    "well-behaved one or the feature is lower-is-better (the safety net or the direction must do something); a second "
+    "family varies (train_fdr, test_fdr) in {(0.13,0.13),(0.26,0.13),(0.26,0.01)} and adds a weak feature pointing the other way"
 )
 ASSUMPTIONS = [
     "accepted counts are evaluated by the C01 reference on the generator's own target flags (never by mokapot)",
@@ -33,8 +34,9 @@ ASSUMPTIONS = [
     "runs that end in one of mokapot's explicit errors (e.g. calibration impossible) are counted, not demanded",
 ]
 
-EST = ["linear", "constant", "inverted", "halfoverfit", "overfit"]
+EST = ["linear", "proba", "constant", "inverted", "halfoverfit", "overfit", "coarse"]
 FDR = 0.13
+FDRS = {"eq": (0.13, 0.13), "strict": (0.26, 0.13), "verystrict": (0.26, 0.01)}  # (train_fdr, test_fdr)
 
 
 def build(case):
@@ -42,6 +44,11 @@ def build(case):
     df, spec = gen_psms([base[i % len(base)] for i in range(72)], offset=case["offset"], label_enc=case["enc"])
     if case["lower"]:
         df["f_key"] = -df["f_key"]  # lower is better; still pairwise distinct
+    if case.get("mixed"):
+        # a second, much weaker feature pointing the other way: higher is better and it accepts a handful of targets
+        # (the first ten high targets get values above everything else), while the best single feature is f_key
+        hi = [i for i in range(len(df)) if abs(df.loc[i, "f_key"]) >= 100][:10]
+        df.loc[hi, "f2"] = [50.0 + 0.001 * j for j in range(len(hi))]
     return df, spec
 
 
@@ -74,7 +81,8 @@ def check_case(case, acc):
         labels = genuine(df, case["enc"])
         path = work / ("in.pin" if case["fmt"] == "pin" else "in.parquet")
         ds = make_dataset(df, path, features=["f_key", "f2"], spectrum=spec)
-        model = make_model(case["est"], first_only=True, override=case["override"], train_fdr=FDR)
+        train_fdr, FDR = FDRS[case.get("fdr", "eq")]
+        model = make_model(case["est"], first_only=True, override=case["override"], train_fdr=train_fdr)
         try:
             psms, models, scores, descs = mokapot.brew([ds], model=model, test_fdr=FDR, folds=3, max_workers=1, rng=1)
         except Exception as e:
@@ -93,6 +101,27 @@ def check_case(case, acc):
             return "result_no_featpass"
         B = max(p for p, _ in passes)
         best = [models[i] for p, i in passes if p == B]
+        # independent oracle for "the best single feature during training": reference counts on each model's training rows
+        key_col = df["f_key"].values.astype(float)
+        row_of = {float(k): i for i, k in enumerate(key_col)}
+        for mi, m in enumerate(models):
+            tr = next((e[2] for e in score_log(m, "train")), None)
+            if tr is None or m.feat_pass is None:
+                continue
+            rows = [row_of[k] for k in tr if k in row_of]
+            if len(rows) != len(tr):
+                continue
+            counts = {}
+            for f in ("f_key", "f2"):
+                vals = df[f].values.astype(float)
+                for dsc in (True, False):
+                    counts[(f, dsc)] = accepted([vals[i] for i in rows], [labels[i] for i in rows], dsc, train_fdr)
+            top = max(counts.values())
+            acc.count("best_feature_oracle_evaluations")
+            if int(m.feat_pass) != top or counts.get((m.best_feat, bool(m.desc))) != top:
+                add("best-feature-is-not-the-best",
+                    f"model {mi+1} reports best feature {m.best_feat!r} (desc={m.desc}) accepting {m.feat_pass} training PSMs, but on its "
+                    f"training rows the reference counts are {dict((f'{f}/{'desc' if d else 'asc'}', c) for (f, d), c in counts.items())}")
         if not case["override"]:
             if is_feat:
                 # fell back: must be the feature of an arg-max model together with its direction
@@ -178,6 +207,11 @@ def run(ctx):
     for mv, off, enc, lower, est, fmt, ov in itertools.product(mvs, offsets, ("pm1", "01", "bool"), (False, True), EST,
                                                               ("pin", "parquet"), (False, True)):
         cases.append(dict(mults=list(mv), offset=off, enc=enc, lower=lower, est=est, fmt=fmt, override=ov))
+    # evaluation FDR stricter than the training FDR; features pointing in different directions
+    for mv, off, lower, est, fdr, mixed in itertools.product(mvs, offsets, (False, True), EST, ("eq", "strict", "verystrict"), (False, True)):
+        if fdr == "eq" and not mixed:
+            continue
+        cases.append(dict(mults=list(mv), offset=off, enc="pm1", lower=lower, est=est, fmt="pin", override=False, fdr=fdr, mixed=mixed))
     cases = ctx.rotate(cases)
     items = [cases[i:i + 10] for i in range(0, len(cases), 10)]
     ctx.seed = 0
